@@ -223,7 +223,7 @@ func c06Fuzz(p *fw.ParentCtx) {
 }
 
 func init() {
-	pr := &Profile{Sets: c06Sets, Kinds: append(append([]string{}, allKinds...), "junk", "motif", "motif", "degenerate"), Huge: true, Zoo: true, TileWidth: true}
+	pr := &Profile{Sets: c06Sets, Kinds: append(append([]string{}, allKinds...), "junk", "motif", "motif", "degenerate"), Huge: true, Zoo: true, Repeat: true, TileWidth: true}
 	fw.Register(&fw.Prop{
 		ID: "C06", Cases: tierN(300000, 6000000),
 		Run: func(c *fw.Ctx) {
